@@ -273,6 +273,16 @@ String Xml::Private::escapeString(const String& str)
   for(const char* i = str, * end = i + str.length(); i < end; ++i)
   {
     c = *i;
+    if(c == '\r' || c == '\n')
+    { // a raw line break would end an attribute value
+      result.resize(dest - destStart);
+      result.reserve(result.length() + 5 + (end - i));
+      destStart = result;
+      dest = destStart + result.length();
+      Memory::copy(dest, c == '\r' ? "&#13;" : "&#10;", 5);
+      dest += 5;
+      continue;
+    }
     if((c & 0xc0) || (c & 0xe0) == 0) // c >= 64 || c < 32
     {
       *(dest++) = c;
